@@ -80,49 +80,33 @@ Proof. exact observe_ref. Qed.
 Print Assumptions C08_observations_from_workspace.
 
 (* ---------------------------------------------------------------- update_cache_exact
-   FULL STATEMENT (what the property says): after update_cache() returns, the cache file lists exactly
-   the ids of the workspace, each mapped to its true state point, and an immediate second call
-   returns None:
-     forall f s, Inv f s -> ... -> update_cache f s = (f', s', Ok r) ->
-       exact f' /\ listing f' = listing f /\ exists s'', update_cache f' s' = (f', s'', Ok None).
-   It is FALSE of the present code (defect F9: the id set used in the comparison is taken before the
-   in-memory cache is reconciled with the workspace, Cache.update_cache_gen, flag F9_FIXED = false):
-   C08_update_cache_exact_refuted.  Proved below
-     * for the present code under  f9_state f s = false   (C08_update_cache_exact_partial), where
-       f9_state f s  <->  a cache file exists /\ every id in the session's _sp_cache is in it /\
-                          its id set differs from the directory listing;
-     * for the repaired comparison without side condition (C08_update_cache_exact_when_fixed).
-   WHEN THE fix: COMMIT LANDS: set Cache.F9_FIXED := true, delete C08_update_cache_exact_refuted (it no
-   longer compiles), and replace the _partial theorem by
-     Theorem C08_update_cache_exact : (statement of _when_fixed with update_cache in place of
-     update_cache_gen .. true).  Proof. exact update_cache_exact_when_fixed. Qed. *)
-Theorem C08_update_cache_exact_partial : forall frepr loads_s loads_b f s f' s' r,
+   After update_cache() returns, the cache file lists exactly the ids of the workspace (exact: keys distinct,
+   key set = directory listing, every value = the workspace state point up to key order), the workspace is
+   untouched, and an immediate second call returns None.  No side condition beyond the standing ones (sound
+   caches, uncorrupted workspace, collision freedom on the values at hand).
+   History: before fix: d7351f9 the id set used in the comparison was taken BEFORE the in-memory cache was
+   reconciled with the workspace (defect F9: any new session got None and a stale file).  The model keeps both
+   comparisons in Cache.update_cache_gen (late : bool); F9_FIXED = true selects the present code.  The old
+   behaviour is recorded by C08_update_cache_before_fix (exact only outside f9_state) and the Example
+   C08_example_fix (same state: new code rewrites, old comparison answered None). *)
+Theorem C08_update_cache_exact : forall frepr loads_s loads_b f s f' s' r,
   Inv frepr f s -> NoDup (map fst (s_cache s)) -> file_nodup f -> ws_intact frepr loads_s loads_b f ->
   coll_free frepr loads_s f (map snd (s_cache s) ++ file_vals f) ->
-  f9_state f s = false ->
   update_cache frepr loads_s f s = (f', s', Ok r) ->
   exact loads_s f' /\ listing f' = listing f /\
   exists s'', update_cache frepr loads_s f' s' = (f', s'', Ok None).
-Proof. exact update_cache_exact_partial. Qed.
-Print Assumptions C08_update_cache_exact_partial.
+Proof. exact update_cache_exact. Qed.
+Print Assumptions C08_update_cache_exact.
 
-Theorem C08_update_cache_exact_when_fixed : forall frepr loads_s loads_b f s f' s' r,
+Theorem C08_update_cache_before_fix : forall frepr loads_s loads_b f s f' s' r,
   Inv frepr f s -> NoDup (map fst (s_cache s)) -> file_nodup f -> ws_intact frepr loads_s loads_b f ->
   coll_free frepr loads_s f (map snd (s_cache s) ++ file_vals f) ->
-  update_cache_gen frepr loads_s true f s = (f', s', Ok r) ->
+  f9_state f s = false ->
+  update_cache_gen frepr loads_s false f s = (f', s', Ok r) ->
   exact loads_s f' /\ listing f' = listing f /\
-  exists s'', update_cache_gen frepr loads_s true f' s' = (f', s'', Ok None).
-Proof. exact update_cache_exact_when_fixed. Qed.
-Print Assumptions C08_update_cache_exact_when_fixed.
-
-(* the witness: init {a:0}; init {a:1}; update_cache; remove {a:0}; NEW SESSION; update_cache() = None
-   while the file still lists the removed id (replayed on the real code by harness/c08.py, DIRECTED[0]) *)
-Theorem C08_update_cache_exact_refuted :
-  exists f, Inv ex_fr f fresh /\ ws_intact ex_fr ex_ls ex_lb f /\ file_nodup f /\
-            (exists s', update_cache ex_fr ex_ls f fresh = (f, s', Ok None)) /\
-            ~ exact ex_ls f.
-Proof. exact update_cache_exact_refuted. Qed.
-Print Assumptions C08_update_cache_exact_refuted.
+  exists s'', update_cache_gen frepr loads_s false f' s' = (f', s'', Ok None).
+Proof. exact update_cache_before_fix_partial. Qed.
+Print Assumptions C08_update_cache_before_fix.
 
 (* ---------------------------------------------------------------- licence for the correspondence
    If the implementation agrees with the model on a recorded history (mismatch_C08 c = false), the
@@ -137,14 +121,21 @@ Print Assumptions C08_model_holds.
 
 (* ---------------------------------------------------------------- non-vacuity *)
 (* the hypotheses of the transparency and exactness theorems are satisfiable by a non-trivial state: the
-   witness project (one job left, a cache file with two sound entries, one of them stale); it is an F9
-   state, i.e. exactly the side condition of the _partial theorem fails there *)
+   witness project (one job left, a cache file with two sound entries, one of them stale: an F9 state) *)
 Example C08_example_hypotheses :
   Inv ex_fr ex_f9_fs fresh /\ ws_intact ex_fr ex_ls ex_lb ex_f9_fs /\ file_nodup ex_f9_fs /\
   listing ex_f9_fs = [calc_id ex_fr ex_u1] /\
   cache_file ex_f9_fs = Some [(calc_id ex_fr ex_u0, ex_u0); (calc_id ex_fr ex_u1, ex_u1)] /\
   f9_state ex_f9_fs fresh = true.
 Proof. exact ex_f9_hyps. Qed.
+
+(* on that state (stale file, new session) update_cache() now rewrites the file to the one remaining job; the
+   comparison before the fix returned None and left it (the F9 witness, replayed by harness/c08.py DIRECTED[0]) *)
+Example C08_example_fix :
+  (exists f' s', update_cache ex_fr ex_ls ex_f9_fs fresh = (f', s', Ok (Some 1%N)) /\
+                 cache_file f' = Some [(calc_id ex_fr ex_u1, ex_u1)]) /\
+  (exists s', update_cache_gen ex_fr ex_ls false ex_f9_fs fresh = (ex_f9_fs, s', Ok None)).
+Proof. split; [exact ex_fixed|exact ex_before_fix]. Qed.
 
 (* collision freedom is satisfiable: on the witness every cached value equals the workspace value *)
 Example C08_example_coll_free :
